@@ -162,7 +162,7 @@ pub struct Plan {
 	pub kind: &'static str,
 }
 
-fn unread(s: &TcpStream) -> i32 {
+pub fn unread(s: &TcpStream) -> i32 {
 	let mut n: libc::c_int = 0;
 	let r = unsafe { libc::ioctl(s.as_raw_fd(), libc::FIONREAD, &mut n) };
 	if r < 0 {
